@@ -58,6 +58,89 @@ class PlainLink(SymlinkNodeMixin):
         return "PlainLink(...)"
 
 
+class Record(object):
+    """A slotted record base class (no tree behaviour)."""
+
+    __slots__ = ("uid", "weight")
+
+
+class SlotDictNM(Record, NodeMixin):
+    """User NodeMixin class that keeps part of its data in inherited __slots__ and the rest in the instance dictionary."""
+
+    def __init__(self, name=None, parent=None, children=None, **kwargs):
+        self.__dict__.update(kwargs)
+        self.name = name
+        self.uid = "uid-%s" % (name,)
+        if kwargs:
+            self.weight = sorted(kwargs)
+        self.parent = parent
+        if children:
+            self.children = children
+
+    def __repr__(self):
+        return "SlotDictNM(%r)" % (self.name,)
+
+
+class PropLink(SymlinkNodeMixin):
+    """Link whose `target` is a read-only property (the docs only require that the class has a `target` attribute)."""
+
+    def __init__(self, target, parent=None, children=None):
+        object.__setattr__(self, "_ref", target)  # a normal assignment would be forwarded to the target
+        self.parent = parent
+        if children:
+            self.children = children
+
+    @property
+    def target(self):
+        return object.__getattribute__(self, "_ref")
+
+    def __repr__(self):
+        return "PropLink(...)"
+
+
+class SlotLink(SymlinkNodeMixin):
+    """Link that keeps `target` in a slot instead of the instance dictionary."""
+
+    __slots__ = ("target",)
+
+    def __init__(self, target, parent=None, children=None):
+        self.target = target
+        self.parent = parent
+        if children:
+            self.children = children
+
+    def __repr__(self):
+        return "SlotLink(...)"
+
+
+def class_link(target):
+    """Link of a one-off class whose `target` is a class-level attribute (all links of that class share the target)."""
+
+    def __init__(self, parent=None, children=None):
+        self.parent = parent
+        if children:
+            self.children = children
+
+    cls = type("ClassLink", (SymlinkNodeMixin,), {"target": target, "__init__": __init__, "__repr__": lambda self: "ClassLink(...)"})
+    return cls()
+
+
+def make_link(kind, target):
+    """A user-defined link of the named kind pointing at target."""
+    if kind == "PlainLink":
+        return PlainLink(target)
+    if kind == "PropLink":
+        return PropLink(target)
+    if kind == "SlotLink":
+        return SlotLink(target)
+    if kind == "ClassLink":
+        return class_link(target)
+    raise ValueError(kind)
+
+
+LINK_KINDS = ["PlainLink", "PropLink", "SlotLink", "ClassLink"]
+
+
 class EqNode(Node):
     """Record-like node: every instance compares equal to every other one and hashes alike."""
 
@@ -142,6 +225,19 @@ def factory(clsname):
             return SymlinkNode(target)
 
         return make_link
+    if clsname == "SelfLinks":
+        # every second node is a link to an earlier node made by the same factory (usually a node of the same tree)
+        made = []
+
+        def make_mixed(label):
+            if made and int(label) % 2 == 1:
+                node = SymlinkNode(made[(int(label) // 2) % len(made)])
+            else:
+                node = Node(str(label))
+            made.append(node)
+            return node
+
+        return make_mixed
     if clsname == "EqNode":
         return lambda label: EqNode(str(label))
     if clsname == "FalsyNode":
